@@ -312,7 +312,7 @@ def run(ctx):
         okz = zd.get('compressobj') == 'zlib.compressobj' and zd.get('variant_name') in ("'level'", '"level"')
     dec = prog.fn('utils:ZlibStreamDecompresser.decompressobj_class')
     okz = okz and 'return zlib.decompressobj' in norm(dec.node)
-    calls = [c for c in walk_local(info.node) if isinstance(c, ast.Call) and "algorithm_info['compressobj']" in norm(c.func)]
+    calls = [c for c in walk_local(info.node) if isinstance(c, ast.Call) and isinstance(c.func, ast.Subscript) and isinstance(c.func.slice, ast.Constant) and c.func.slice.value == 'compressobj']
     only_level = bool(calls) and all(not c.args and len(c.keywords) == 1 for c in calls)
     if okz and only_level and 'zlib-flate -uncompress' in script:
         chk.ok(R4, 'utils:_get_compression_algorithm_info', 'zlib.compressobj(level=N) / zlib.decompressobj()', detail='default wbits: a raw zlib stream, what `zlib-flate -uncompress` expects')
